@@ -292,11 +292,14 @@ PROPS['C09'] = {
             '_sane must absorb); an accepted index reports the tid of the transaction ending at the saved position; '
             '_check_sanity touches no file; _save_index proved to write the index under the temporary name, never '
             'in place, to rename after removing the old file, and to touch nothing in read-only mode; read_index '
-            'with read_only proved to leave the file byte-identical; every mutator proved (syntactically + store/'
+            'with read_only proved to leave the file byte-identical; _restore_index proved to hand a saved index to the open '
+            'ONLY after _sane accepted exactly that index and position (with the tid _sane reports), None otherwise, '
+            'writing nothing; every mutator proved (syntactically + store/'
             'deleteObject/new_oid/tpc_begin contracts) to refuse with ReadOnlyError first.',
     'note': 'SUFFICIENCY of the _check_sanity heuristic (accepted => the index is a prefix index of this file, also '
             'for an index saved before a pack) cannot be proved (a counter-model exists for adversarial payload '
-            'bytes): covered by the bounded stand-in only. FileStorage.__init__/_restore_index as a whole: bounded.',
+            'bytes): covered by the bounded stand-in only. FileStorage.__init__ as a whole and the conversion of old '
+            'dict-based indexes in _restore_index: bounded.',
     'design_ref': 'DESIGN.md section 5 C09',
 }
 
